@@ -35,3 +35,4 @@ def run(check: Check, repo: Repo, tier: str) -> None:
     K.null_reject(check, repo)
     K.exact_int(check, repo)
     K.float_exact(check, repo)
+    K.int_range_table(check, repo)
